@@ -8,7 +8,7 @@ import os
 import re
 
 from . import common as C
-from .simengine import lockstep, monitors, sweep, world as W
+from .simengine import lockstep, monitors, resizestep, sweep, world as W
 
 LOCKSTEP_FAMILIES = {"cancelshut", "concurrent", "respawn", "saturate", "mixed", "notimeout", "contain", "crash", "kill", "init", "leak", "break", "graceful", "timeouts"}
 
@@ -73,6 +73,15 @@ def run_job(job):
             out["scen"] = scen
             out["schedule"] = [[a, v] for a, v, _ in rec["trace"]]
     if scen.get("kind") == "reusable":
+        if job.get("resize_lockstep", True):
+            # the caller's operations inside _resize, one by one, against the Lean model M1Z (LokyModel/Resize.lean)
+            try:
+                out["resize"] = resizestep.compare(scen, rec)
+            except Exception as e:
+                out["resize"] = {"calls": 0, "ops": 0, "diff": {"kind": "driver-error", "error": repr(e)[:300]}}
+            if out["resize"]["diff"] is not None:
+                out["scen"] = scen
+                out["schedule"] = [[a, v] for a, v, _ in rec["trace"]]
         out["reuse_calls"] = rec.get("reuse_calls", [])
         out["nusers"] = len(scen["users"])
         out["cpu_count"] = scen.get("cpu_count", 2)
@@ -315,8 +324,27 @@ class ReusePart(E1Part):
             corr.model_error = str(e)
             drv = None
         jobs = self.jobs(ctx, self.n[ctx.tier])
+        try:
+            C.Driver("resize_driver").ensure()
+        except C.Infra as e:
+            corr.model_error = (corr.model_error or "") + str(e)
+            for j in jobs:
+                j["resize_lockstep"] = False
         res = self.run(jobs)
         kinds, agree = self.absorb(ctx, corr, res)
+        rs_calls = rs_ops = 0
+        for r in res:
+            d = r.get("resize")
+            if not d:
+                continue
+            rs_calls += d["calls"]
+            rs_ops += d["ops"]
+            if d["diff"] is not None:
+                corr.disagreements.append({"input": {"scenario": r.get("scen"), "schedule": r.get("schedule", [])},
+                                           "model_vs_impl": dict(d["diff"], part="_resize operation lock-step (LokyModel/Resize.lean)"),
+                                           "family": r["family"], "seed": r["seed"]})
+        corr.extra["resize_calls_in_lockstep"] = rs_calls
+        corr.extra["resize_operations_in_lockstep"] = rs_ops
         lines, refs = [], []
         for r in res:
             if r.get("status") != "ok" or r.get("nusers") != 1:
@@ -377,6 +405,9 @@ class ReusePart(E1Part):
                      "interleaved with submissions and explicit shutdowns from 1-2 threads, executed by the REAL reusable_executor.py + "
                      "process_executor.py under the deterministic scheduler with idle time-outs (and crashes in the reusecrash family); "
                      f"oracles {self.props}; every call of single-thread histories is compared with the Lean decision model (action, ids, sizes), "
-                     "every fault-free resize with the resize plan (survivors, size). Distinct = distinct schedule traces.")
+                     "every fault-free resize with the resize plan (survivors, size); and in EVERY call that reused the live instance (any "
+                     "number of threads, time-outs, deaths, flags raised meanwhile) the caller's announced operations inside _resize are "
+                     "compared one by one with the operation-level model LokyModel/Resize.lean fed with the shared state observed after "
+                     "the caller's previous operation. Distinct = distinct schedule traces.")
         corr.extra["transitions"] = len(kinds)
         corr.extra["states"] = len(corr.distinct)
